@@ -322,11 +322,10 @@ class MpReachNLRI(Attribute):
                         data=value
                     )
             elif safi == safn.SAFNUM_UNICAST:
-                nexthop_len = 16
                 nexthop_bin = netaddr.IPAddress(value['nexthop']).packed
                 if value.get('linklocal_nexthop'):
-                    nexthop_len *= 2
                     nexthop_bin += netaddr.IPAddress(value['linklocal_nexthop']).packed
+                nexthop_len = len(nexthop_bin)
 
                 nlri_bin = IPv6Unicast.construct(nlri_list=value['nlri'])
 
